@@ -3,7 +3,7 @@
 One helper call, assignment or deletion (copy-on-write AND _inplace=True, symbolic) on a template instance built from symbolic leaves; arguments conforming and
 non-conforming, callbacks that raise or return ill-typed values, missing indices/keys, unknown keywords; deep identity +
 content snapshots of receiver, arguments and a bystander instance, compared on every path where the call raised."""
-from vf.specops import K2_OPS, K2_SET_OPS, K3_OPS, K4_DUP_OPS, K4_OPS, K5_FAIL_OPS, K5_OPS
+from vf.specops import K2_OPS, K2_SET_OPS, K3_FAIL_OPS, K3_OPS, K4_PREP_OPS, K4_DUP_OPS, K4_OPS, K5_FAIL_OPS, K5_OPS
 from vf.stepcheck import K1_MATRIX, make, warm
 from vf.sym import Ob
 
@@ -29,6 +29,13 @@ def matrix(tier):
     for opname in K3_OPS:
         for attr in ("inner", "inner2"):
             out.append(("K3", opname, attr, True))
+    for opname in K3_FAIL_OPS:
+        for attr in ("inner", "inner2"):
+            out.append(("K3", opname, attr, True))
+    for opname in K4_PREP_OPS:
+        if PROP == "C01" and (opname.startswith("setattr") or opname.startswith("del")):
+            continue
+        out.append(("K4", opname, None, True))
     for opname in K4_OPS:
         if PROP == "C01" and opname.startswith("setattr"):
             continue
@@ -61,4 +68,144 @@ def obligations(tier):
                     timeout=T,
                 )
             )
+    return obs
+
+
+# ---------------------------------------------------------------------------------------------------------------------
+# user callbacks failing at their i-th invocation: preparer, item preparer, validator, key function, __post_copy__
+
+
+def _cb_classes(fam):
+    from typing import Any as _Any
+    from typing import List as _List
+
+    from spec_classes import spec_class
+    from spec_classes.types import KeyedList, validated
+
+    from vf.specops import CallbackFail
+
+    ST = {"who": None, "n": 0, "at": -1}
+
+    def tick(who):
+        if ST["who"] == who:
+            ST["n"] += 1
+            if ST["n"] == ST["at"]:
+                raise CallbackFail(who)
+
+    def _valid(v):
+        tick("validator")
+        return isinstance(v, int)
+
+    Even = validated(_valid, name="intish")
+
+    def keyfn(it):
+        tick("keyfn")
+        return it[0]
+
+    @spec_class(bootstrap=(fam == "eager"))
+    class CB:
+        pw: int = 0
+        scores: _List[int] = []
+        ev: Even = 0
+        kl: _Any = None
+        y: int = 0
+
+        def _prepare_pw(self, v):
+            tick("preparer")
+            return len(v) if isinstance(v, str) else v
+
+        def _prepare_score(self, v):
+            tick("item_preparer")
+            return len(v) if isinstance(v, str) else v
+
+        def __post_copy__(self):
+            tick("post_copy")
+
+    from vf.snapshot import register
+
+    register(CB, ["pw", "scores", "ev", "kl", "y"])
+    return CB, ST, keyfn, KeyedList
+
+
+_CB = {}
+
+
+def make_callback(fam, who, opname):
+    from vf.snapshot import describe, same, snap
+    from vf.specops import CallbackFail
+    from vf.sym import Skip, Violation, assume, check, pick
+
+    def h(at: int, v: int, s: int, inplace: bool) -> str:
+        if fam not in _CB:
+            _CB[fam] = _cb_classes(fam)
+        CB, ST, keyfn, KeyedList = _CB[fam]
+        assume(1 <= at <= 4)
+        ST.update(who=None, n=0, at=-1)
+        kl = KeyedList([("a", 1), ("b", 2)], key=keyfn)
+        o = CB(pw=v, scores=[1, 2], ev=3, y=v)
+        o.kl = kl
+        by = CB(pw=1, scores=[5])
+        strs = pick(["", "ab", "abc"], s)
+        arglist = [v, strs, 7]
+        kw = {"_inplace": True} if inplace else {}
+        ops = {
+            "with_pw": lambda: o.with_pw(strs, **kw),
+            "setattr_pw": lambda: setattr(o, "pw", strs),
+            "with_scores": lambda: o.with_scores(arglist, **kw),
+            "with_score": lambda: o.with_score(strs, **kw),
+            "update_multi": lambda: o.update(y=v + 1, scores=arglist, pw=strs, **kw),
+            "with_ev": lambda: o.with_ev(v, **kw),
+            "transform_score": lambda: o.transform_score(0, lambda t: t + 1, _by_index=True, **kw),
+            "kl_append": lambda: o.kl.append(("c", v)),
+            "kl_setitem": lambda: o.kl.__setitem__(0, ("z", v)),
+            "kl_extend": lambda: o.kl.extend([("c", v), ("d", 1)]),
+            "with_y": lambda: o.with_y(v + 1, **kw),
+            "reset_scores": lambda: o.reset_scores(**kw),
+        }
+        if opname == "setattr_pw" or opname.startswith("kl_"):
+            assume(inplace)
+        s_o, s_by, s_arg, s_kl = snap(o), snap(by), snap(arglist), snap(kl)
+        ST.update(who=who, n=0, at=at)
+        try:
+            ops[opname]()
+            exc = None
+        except (Violation, Skip):
+            raise
+        except Exception as ex:
+            exc = ex
+        finally:
+            ST.update(who=None, n=0, at=-1)
+        tag = f"C04/callback-{who}/{opname}"
+        if exc is None:
+            return "returned"
+        check(isinstance(exc, (CallbackFail, TypeError, ValueError)), "the callback's exception (or a type error) propagates", f"{tag}/other-exception-{type(exc).__name__}", lambda: repr(exc))
+        check(same(snap(o), s_o), "an operation that raises leaves the receiver, its nested values and containers exactly as before", f"{tag}/receiver-changed-{'inplace' if inplace else 'copy'}", lambda: f"callback {who} failing at invocation {at}: {describe(s_o)} -> {describe(snap(o))}")
+        check(same(snap(kl), s_kl), "... and its keyed container", f"{tag}/keyed-container-changed", lambda: f"{describe(s_kl)} -> {describe(snap(kl))}")
+        check(same(snap(arglist), s_arg), "... and the arguments", f"{tag}/argument-changed", lambda: f"{describe(s_arg)} -> {describe(snap(arglist))}")
+        check(same(snap(by), s_by), "... and other instances", f"{tag}/bystander-changed")
+        return "raised"
+
+    h.__name__ = f"C04_cb_{fam}_{who}_{opname}"
+    return h
+
+
+CALLBACK_MATRIX = [
+    ("preparer", "with_pw"), ("preparer", "setattr_pw"), ("preparer", "update_multi"),
+    ("item_preparer", "with_scores"), ("item_preparer", "with_score"), ("item_preparer", "update_multi"), ("item_preparer", "transform_score"),
+    ("validator", "with_ev"), ("validator", "update_multi"),
+    ("keyfn", "kl_append"), ("keyfn", "kl_setitem"), ("keyfn", "kl_extend"),
+    ("post_copy", "with_y"), ("post_copy", "with_score"), ("post_copy", "reset_scores"), ("post_copy", "update_multi"),
+]
+
+_base_obligations = obligations
+
+
+def obligations(tier):  # noqa: F811
+    from vf.sym import Ob
+
+    obs = _base_obligations(tier)
+    T = 200 if tier == "quick" else 900
+    for fam in ("eager",) if tier == "quick" else ("eager", "lazy"):
+        for who, opname in CALLBACK_MATRIX:
+            obs.append(Ob(f"C04.{fam}.callback.{who}.{opname}", make_callback(fam, who, opname), [(at, 5, s, ip) for at in (1, 2, 3) for s in (0, 1) for ip in (False, True)], f"user callback `{who}` raising at its at-th invocation (at symbolic in 1..4) during {opname}; _inplace symbolic; snapshots of receiver, its keyed container, the argument list and a bystander instance compared on every raising path", expect=set(), timeout=T))
     return obs
